@@ -1989,6 +1989,30 @@ def async_check(prop, tier):
                 run.violation("C14 seq=%s" % key, {"scenario": sc, "trace_rejected_at": reached,
                                                    "first_unmatched_event": evs[reached] if reached < len(evs) else None, "events": evs})
     run.sample({"sequence": scen[0].get("steps"), "events": [e for e in groups.get(1, []) if e["ev"] in ("Fake", "Await", "Drop")]})
+    # the OS-level discipline of installing and removing (order of writes, flushes, unmapping) on the poll functions of async fns:
+    # lifecycle behaviours executed on pool "async" through both async API families, validated by Trace_Api under C14
+    hl, gl = gen_behaviours("MC_LifecycleApi_q", timeout=3000)
+    hl = [h for h in hl if not any(x["act"] == "Install" and (x["kind"] == "bool" or x["n"] >= 0 or x["gate"] not in ("ok", "sig", "abandon")) for x in h)
+          and not any(x["act"] in ("Call", "CallUnwind") and not x.get("match", True) for x in h)]
+    h3f, g3f = gen_behaviours("MC_LifecycleApi_q3f", timeout=3000)
+    hl += [h for h in h3f if not any(x["act"] == "Install" and x["kind"] == "bool" for x in h)]
+    run.states += gl["distinct"] + g3f["distinct"]
+    run.transitions += gl["generated"] + g3f["generated"]
+    lscen = [hist_to_scenario(h, i, "async", 2, diff=False) for i, h in enumerate(hl, 1)]
+    lg, lo, _ = vlib.run_harness("lifecycle", lscen, "lifecycle_C14")
+    cfgl = tlc.make_cfg("Trace_Api", {"Props": '{"C14", "ALL"}'}, "Trace_Api_C14")
+    tvl = tlc.validate_traces("Trace_Api", cfgl, [(i, lg.get(i, [])) for i in range(1, len(hl) + 1)], WORK, "trace_C14l", timeout=3000)
+    run.traces += len(tvl["accepted"])
+    run.states += tvl["states"]
+    run.transitions += tvl["transitions"]
+    run.extra["lifecycle_on_async_pool"] = {"behaviours": len(hl), "accepted": len(tvl["accepted"])}
+    for sid in tvl["ids"]:
+        run.note_case("async lifecycle " + history_key(hl[sid - 1]))
+        if sid not in tvl["accepted"]:
+            evs = lg.get(sid, [])
+            reached, total = tvl["progress"][sid]
+            run.violation("C14 history=%s" % history_key(hl[sid - 1]),
+                          {"behaviour": hl[sid - 1], "trace_rejected_at": reached, "first_unmatched_event": evs[reached] if reached < len(evs) else None})
     # the async entry points through the placement lattice: the poll function of an async fn as target, the trampoline
     # page dictated around it, the fake (unchecked pointer) at exact displacements around +/-2^31 from the trampoline and far
     M31 = 1 << 31
